@@ -201,6 +201,7 @@ def run(ctx):
     rdb = p.cls(RDB)
     writers = {m for m in rdb.methods if m.endswith("_without_commit")} | {"_get_prepared_new_trial"}
     n_m = 0
+    written_regions = {}
     for mname, fm in sorted(rdb.methods.items()):
         if mname.startswith("__"):
             continue
@@ -209,6 +210,7 @@ def run(ctx):
         model_locals = {t.id for n in own_nodes(fm.node) if isinstance(n, ast.Assign)
                         and isinstance(n.value, ast.Call) and (dotted(n.value.func) or "").startswith("models.")
                         for t in n.targets if isinstance(t, ast.Name)}
+        written_regions[mname] = regions
         for n in own_nodes(fm.node):
             is_w = False
             if (isinstance(n, ast.Attribute) and isinstance(n.ctx, ast.Store)
@@ -246,6 +248,35 @@ def run(ctx):
                   how="all writer statements inside one _create_scoped_session region")
     ctx.floor("R05.4", "rdb_write_methods", n_m, 9)
 
+    # the scoped session is one object per thread: a storage method that opens its own region, called from inside a
+    # region, commits and closes the caller's session half-way (resolved through self-calls, transitively)
+    def _is_region(it):
+        return isinstance(it.context_expr, ast.Call) and (dotted(it.context_expr.func) or "").endswith("_create_scoped_session")
+    opens = {m for m, fm in rdb.methods.items() if any(isinstance(n, (ast.With, ast.AsyncWith)) and any(_is_region(it) for it in n.items) for n in own_nodes(fm.node))}
+    changed = True
+    while changed:
+        changed = False
+        for m, fm in rdb.methods.items():
+            if m not in opens and any(isinstance(c, ast.Call) and self_attr(c.func) in opens for c in own_nodes(fm.node)):
+                opens.add(m)
+                changed = True
+    n_reg = 0
+    for mname, fm in sorted(rdb.methods.items()):
+        pm = parent_map(fm.node)
+        for c in own_nodes(fm.node):
+            if not (isinstance(c, ast.Call) and self_attr(c.func) in opens):
+                continue
+            regs = [it for it in enclosing_with_items(c, pm) if _is_region(it)]
+            n_reg += 1
+            # a read-only region (get_best_trial) has nothing to make durable early
+            regs = [it for it in regs if id(it) in written_regions.get(mname, {})]
+            ctx.check(not regs, "R05.4", fm.short, f"no-region-opened-inside-a-region:{self_attr(c.func)}",
+                      message=f"RDBStorage.{mname} calls self.{self_attr(c.func)}(...) inside its _create_scoped_session block, and that method opens the (thread-local, "
+                              f"hence the same) scoped session again: its exit commits and closes the caller's session, so what {mname} wrote before the call is durable "
+                              f"on its own and the rest goes into a second transaction - a crash in between leaves a half-applied call",
+                      how="calls to region-opening methods are made outside the caller's writing region", where=where(fm, c))
+    ctx.floor("R05.4", "calls_to_region_opening_methods", n_reg, 3)
+
     # who may commit / roll back: only the scoped-session context manager
     def session_txn_calls(prog, modname):
         out = []
@@ -274,6 +305,8 @@ def run(ctx):
     ctx.rule("R05.5", "journal file lock released on every exit (shared with C07 R07.3)")
     J.rule_release(ctx, "R05.5")
     J.rule_write_under_lock(ctx, "R05.5")
+    ctx.rule("R05.7", "a survivor that loses the race for a dead holder's lock keeps waiting: whatever the removal routine raises is caught around the take-over call")
+    J.rule_takeover_lost_race(ctx, "R05.7")
 
 
 def _is_last_nomatch(n) -> bool:
